@@ -489,6 +489,22 @@ pub fn run(ctx: &Ctx, replay: Option<&J>) -> i32 {
         let (ci, k) = jobs[i];
         check_case(ctx, &cases[ci], cfgs[k].0, &cfgs[k].1, &args);
     });
+    // captured strings and record keys over the quote alphabet: every word of length <= 4/5 over
+    // {', ", a, blank} (the emitted source has to spell a string that holds both quote kinds as a
+    // concatenation; every pattern of quote runs occurs)
+    {
+        let qwords: Vec<String> = crate::alpha::words(&['\'', '"', 'a', ' '], if thorough { 5 } else { 4 }).into_iter().filter(|w| !w.is_empty()).map(|w| w.into_iter().collect()).collect();
+        let qbodies = ["[c, x]", "d", "[d, y, c]", "{[c]: x}", "(() => [c, d])()"];
+        let qcases: Vec<Case> = qbodies.iter().map(|b| Case { body: b.to_string(), class: "quote-strings".into(), root_pipe: false }).collect();
+        par_for_ctx(ctx, qwords.len(), |i| {
+            let l1 = format!("c = {}", crate::c14::str_src(&qwords[i]));
+            let cfg: Vec<&str> = vec![l1.as_str(), "d = {[c]: c, k: [c]}"];
+            for qc in &qcases {
+                check_case(ctx, qc, "quote-strings", &cfg, &args[..2]);
+            }
+        });
+        ctx.set("quote_strings", json!(qwords.len()));
+    }
     // the real pipeline for a spread of functions
     let pipe_jobs: Vec<(usize, usize)> = jobs.iter().cloned().step_by(jobs.len() / if thorough { 3000 } else { 300 } + 1).collect();
     par_for_ctx(ctx, pipe_jobs.len(), |i| {
